@@ -22,7 +22,11 @@ RULE = ("three streams, in this order. (1) corpus of past witnesses. (2) STRUCTU
         "stored in either orientation), pre_* (explicit orders: linear extensions, arbitrary permutations, partial orders, "
         "orders with foreign or repeated names, first element in S, S disjoint from the order, empty order), paths_* "
         "(get_nodes_in_directed_paths on cycles with tails, figure-eights, self-loops, targets behind targets, S and T "
-        "overlapping in both branches, unreachable targets, non-node arguments), district_* (get_district). "
+        "overlapping in both branches, unreachable targets, non-node arguments), district_* (get_district), eq_* (`__eq__`, the "
+        "equality the property compares graphs with: a second construction of the same graph in another insertion order / "
+        "through another constructor must compare equal, a graph that differs by ONE thing -- an edge-less node added, "
+        "dropped or renamed, a directed / bidirected edge added, dropped, reversed, moved or changed into the other kind -- "
+        "must not, in both argument orders; `!=`, a copy, a non-graph). "
         "(3) random mixed graphs (0-8 nodes; isolated nodes, bidirected-only nodes, parallel directed+bidirected pairs, "
         "cycles for the operations defined on them, random insertion order) x every operation x random node subsets "
         "(empty, all, partial, and non-members). "
@@ -52,7 +56,7 @@ LEANCHECK_MODULES = ["Y0.Model.Graph", "Y0.Props.C14"]
 OPS_SET = ["subgraph", "remove_in_edges", "remove_out_edges", "remove_nodes_from", "intervene",
            "ancestors_inclusive", "descendants_inclusive", "get_markov_pillow", "get_markov_blanket", "pre"]
 OPS_NOARG = ["districts", "moralize", "disorient", "topological_sort"]
-OPS = OPS_SET + OPS_NOARG + ["nodes_in_directed_paths", "pre_order", "get_district"]
+OPS = OPS_SET + OPS_NOARG + ["nodes_in_directed_paths", "pre_order", "get_district"]      # + "eq" (structured stream only)
 CYCLIC_OK = {"subgraph", "remove_in_edges", "remove_out_edges", "remove_nodes_from", "intervene",
              "ancestors_inclusive", "descendants_inclusive", "get_markov_pillow", "get_markov_blanket",
              "districts", "moralize", "disorient", "topological_sort", "nodes_in_directed_paths", "get_district",
@@ -351,8 +355,111 @@ def _shape_district(rng):
     return {"op": "get_district", "g": g, "v": x, "shape": "district_" + v}
 
 
+def _shape_eq(rng):
+    """NxMixedGraph.__eq__ (graph.py:85-92, 'equality used to compare graphs'): g against a second graph h that is the
+    same graph built differently, or differs from it in exactly one thing"""
+    g = G.rand_graph(rng, 0, 6, acyclic=rng.random() < 0.7, pb=rng.choice([0.0, 0.2, 0.4]))
+    v = rng.choice(["same", "same", "same_no_node_list", "add_isolated", "drop_isolated", "rename_isolated", "add_di", "drop_di",
+                    "flip_di", "di_to_bi", "bi_to_di", "add_bi", "drop_bi", "move_bi", "move_di", "rename_node"])
+    # give g what the variant needs (an edge-less node, two nodes, an edge of the kind that is changed)
+    nodes = G.all_nodes(g)
+    if v != "same" and len(nodes) < 2:
+        g["nodes"] = g["nodes"] + [x for x in (max(nodes, default=-1) + 1, max(nodes, default=-1) + 2)][:2 - len(nodes)]
+        nodes = G.all_nodes(g)
+    touched = {x for e in g["di"] + g["bi"] for x in e}
+    if v in ("drop_isolated", "rename_isolated") and not set(nodes) - touched:
+        g["nodes"] = g["nodes"] + [max(nodes) + 1]
+    if v in ("drop_di", "flip_di", "di_to_bi", "move_di") and not g["di"]:
+        g["di"] = [rng.sample(nodes, 2)]
+    if v in ("drop_bi", "bi_to_di", "move_bi") and not g["bi"]:
+        g["bi"] = [rng.sample(nodes, 2)]
+    nodes = G.all_nodes(g)
+    h = G.shuffled(rng, g)
+    touched = {x for e in g["di"] + g["bi"] for x in e}
+    iso = [x for x in nodes if x not in touched]
+    fresh = max(nodes, default=-1) + 1 + rng.randrange(3)
+    di_set = {tuple(e) for e in g["di"]}
+    bi_set = {frozenset(e) for e in g["bi"]}
+    pairs = [(a, b) for a in nodes for b in nodes if a != b]
+
+    def fallback():
+        h["nodes"] = h["nodes"] + [fresh]
+        return "add_isolated"
+    if v == "same":
+        pass
+    elif v == "same_no_node_list":
+        h["nodes"] = [x for x in h["nodes"] if x not in touched]
+    elif v == "add_isolated":
+        h["nodes"].insert(rng.randrange(len(h["nodes"]) + 1), fresh)
+    elif v == "drop_isolated":
+        if iso:
+            x = rng.choice(iso)
+            h["nodes"] = [y for y in h["nodes"] if y != x]
+        else:
+            v = fallback()
+    elif v == "rename_isolated":
+        if iso:
+            x = rng.choice(iso)
+            h["nodes"] = [fresh if y == x else y for y in h["nodes"]]
+        else:
+            v = fallback()
+    elif v == "rename_node":
+        if nodes:
+            x = rng.choice(nodes)
+            f = lambda y: fresh if y == x else y  # noqa: E731
+            h = {"nodes": [f(y) for y in h["nodes"]], "di": [[f(a), f(b)] for a, b in h["di"]], "bi": [[f(a), f(b)] for a, b in h["bi"]]}
+        else:
+            v = fallback()
+    elif v in ("add_di", "add_bi"):
+        free = [p for p in pairs if (p not in di_set if v == "add_di" else frozenset(p) not in bi_set)]
+        if free:
+            h["di" if v == "add_di" else "bi"].append(list(rng.choice(free)))
+        else:
+            v = fallback()
+    elif v in ("drop_di", "flip_di", "di_to_bi", "move_di"):
+        if h["di"]:
+            k = rng.randrange(len(h["di"]))
+            a, b = h["di"][k]
+            if v == "drop_di":
+                del h["di"][k]
+            elif v == "flip_di":
+                if (b, a) in di_set or a == b:
+                    del h["di"][k]
+                    v = "drop_di"
+                else:
+                    h["di"][k] = [b, a]
+            elif v == "di_to_bi":
+                del h["di"][k]
+                if frozenset((a, b)) not in bi_set:
+                    h["bi"].append([a, b])
+            else:
+                free = [p for p in pairs if p not in di_set]
+                if free:
+                    h["di"][k] = list(rng.choice(free))
+                else:
+                    del h["di"][k]
+        else:
+            v = fallback()
+    else:   # drop_bi, bi_to_di, move_bi
+        if h["bi"]:
+            k = rng.randrange(len(h["bi"]))
+            a, b = h["bi"][k]
+            del h["bi"][k]
+            if v == "bi_to_di" and (a, b) not in di_set:
+                h["di"].append([a, b])
+            elif v == "move_bi":
+                free = [p for p in pairs if frozenset(p) not in bi_set]
+                if free:
+                    h["bi"].append(list(rng.choice(free)))
+        else:
+            v = fallback()
+    if rng.random() < 0.5:
+        g, h = h, g          # the changed graph on either side of ==
+    return {"op": "eq", "g": g, "h": h, "shape": "eq_" + v}
+
+
 STRUCTURED = [(_shape_blanket, 5), (_shape_overlap, 4), (_shape_order, 3), (_shape_pre, 3), (_shape_paths, 4),
-              (_shape_district, 1)]
+              (_shape_district, 1), (_shape_eq, 2)]
 
 
 def _random_case(rng):
@@ -418,6 +525,8 @@ KW = {"subgraph": "vertices", "remove_in_edges": "vertices", "remove_out_edges":
 def _slots(case):
     """the argument forms that are legal for this case (read off the signatures in graph.py)"""
     op = case["op"]
+    if op == "eq":
+        return {"ctor": F.CTORS, "ctor_h": F.CTORS}
     order_matters = op in ORDER_FREE or (op == "pre_order" and not case.get("order"))
     sl = {"ctor": F.CTORS_SAME_ORDER if order_matters else F.CTORS, "call": ("positional", "keyword")}
     if op in ITER_OPS:
@@ -491,7 +600,13 @@ def _call(case, g):
     Sl = [G.V(i) for i in case.get("S", [])]
     S = set(Sl)                                   # for the harness' own use; the call gets a fresh container
     kw = fm["call"] == "keyword"
-    arg = lambda: F.varset(Sl, fm["S"])           # noqa: E731
+    A = None
+    if op == "get_markov_pillow":
+        A = F.container(Sl, fm["S"])
+    elif "S" in fm and op != "intervene":
+        A = F.varset(Sl, fm["S"])
+    arg = lambda: A                               # noqa: E731  (each call path hands the container over exactly once)
+    arg_before = F.snapshot(A)
     before = _snapshot(graph)
     try:
         if op in ("subgraph", "remove_in_edges", "remove_out_edges", "remove_nodes_from"):
@@ -508,8 +623,7 @@ def _call(case, g):
             r = getattr(graph, op)(**{KW[op]: arg()}) if kw else getattr(graph, op)(arg())
             out = ["ok", C.as_set([str(G.vint(v)) for v in r])]
         elif op == "get_markov_pillow":
-            a = F.container(Sl, fm["S"])
-            r = graph.get_markov_pillow(nodes=a) if kw else graph.get_markov_pillow(a)
+            r = graph.get_markov_pillow(nodes=A) if kw else graph.get_markov_pillow(A)
             out = ["ok", C.as_set([str(G.vint(v)) for v in r])]
         elif op == "districts":
             ds = graph.districts()
@@ -554,14 +668,17 @@ def _call(case, g):
             out = ["ok", C.as_set([str(G.vint(v)) for v in r])]
         else:
             raise ValueError(op)
-    except (nx.NetworkXError, nx.NetworkXUnfeasible, nx.NodeNotFound, KeyError, RuntimeError, ValueError, TypeError) as e:
-        # TypeError: no argument form used here is outside the declared types, so a rejected form is an error outcome
-        # like any other (the oracle then says whether the definition allows an error on this input)
+    except Exception as e:  # noqa: BLE001
+        # whatever the class (NetworkXError, NodeNotFound, KeyError, TypeError, AttributeError, RecursionError ...): an error
+        # outcome of the REAL code, never a harness error -- the oracle then says whether the definition allows an error on
+        # this input.  No argument form used here is outside the declared types.
         out = ["err"]
         extra_tag = type(e).__name__  # noqa: F841
     after = _snapshot(graph)
     if before != after:
         extra = "receiver modified by the call"
+    elif F.snapshot(A) != arg_before:
+        extra = "the caller's node collection was modified by the call"
     return out, extra
 
 
@@ -744,7 +861,52 @@ def _features(case, V, di):
     return f
 
 
+def _graph_key(g):
+    return (frozenset(G.all_nodes(g)), frozenset(tuple(e) for e in g["di"]), frozenset(frozenset(e) for e in g["bi"]))
+
+
+def _run_eq(case):
+    """`__eq__` from its definition: equal iff same node set, same directed edge set, same bidirected edge set (an
+    unordered pair each); symmetric; `!=` is its negation; a graph equals its copy (comparison with non-graphs is outside the property)"""
+    g, h = case["g"], case["h"]
+    fm = _forms(case)
+    tags = {"op": "eq", "shape": case.get("shape", "unknown"), "n_nodes": len(G.all_nodes(g))}
+    tags.update(F.tags(fm))
+    want = _graph_key(g) == _graph_key(h)
+    tags["equal"] = want
+    try:
+        A = F.build_graph(g, fm["ctor"], seed=case.get("shuffle_seed", 0))
+        B = F.build_graph(h, fm["ctor_h"], seed=case.get("shuffle_seed", 0) + 1)
+    except Exception as e:  # noqa: BLE001
+        return {"out": ["err"], "fail": f"constructor raised {type(e).__name__}: {str(e)[:120]}", "nontrivial": False, "tags": tags}
+    fault = F.constructor_fault(g, A, fm["ctor"]) or F.constructor_fault(h, B, fm["ctor_h"])
+    if fault:
+        return {"out": ["err"], "fail": fault, "nontrivial": False, "tags": tags}
+    before = (_snapshot(A), _snapshot(B))
+    try:
+        ab, ba, ne = A == B, B == A, A != B
+        refl = (A == A.copy()) and (B == B.copy()) and (A == A)
+    except Exception as e:  # noqa: BLE001
+        return {"out": ["err"], "fail": f"__eq__ raised {type(e).__name__}: {str(e)[:120]}", "nontrivial": False, "tags": tags}
+    out = ["ok", "true" if ab is True else "false" if ab is False else repr(ab)]
+    fail = None
+    if ab is not want:
+        fail = f"__eq__ says {ab} for graphs that are {'equal' if want else 'different'} by definition ({case.get('shape')}): {g} vs {h}"
+    elif ba is not ab:
+        fail = f"__eq__ is not symmetric: A == B is {ab}, B == A is {ba}"
+    elif ne is not (not ab):
+        fail = f"A != B is {ne} although A == B is {ab}"
+    elif not refl:
+        fail = "a graph does not compare equal to itself / its copy()"
+    elif (_snapshot(A), _snapshot(B)) != before:
+        fail = "receiver modified by the call"
+    V = G.all_nodes(g)
+    return {"out": out, "fail": fail, "nontrivial": len(V) >= 3 and bool(g["di"] or g["bi"]), "tags": tags}
+
+
 def run_python(case):
+    if case["op"] == "eq":
+        return _run_eq(case)
     g = case["g"]
     out, extra = _call(case, g)
     fail = extra or _oracle(case, out)
@@ -782,6 +944,9 @@ def request(case):
     g = case["g"]
     gs = C.graph_sexp(g["nodes"], g["di"], g["bi"])
     op = case["op"]
+    if op == "eq":
+        h = case["h"]
+        return C.enc(["graph", "graph_eq", gs, C.graph_sexp(h["nodes"], h["di"], h["bi"])])
     if op in OPS_NOARG:
         return C.enc(["graph", op, gs])
     if op == "nodes_in_directed_paths":
@@ -795,6 +960,8 @@ def request(case):
 
 def canon_model(case, rep):
     op = case["op"]
+    if op == "eq":
+        return ["ok", rep] if isinstance(rep, str) else ["err"]      # the driver answers with the bare atom true / false
     if rep[0] == "err":
         return ["err"]
     body = rep[1]
@@ -808,6 +975,19 @@ def canon_model(case, rep):
 
 
 def shrink(case):
+    if case["op"] == "eq":
+        # delete the same node / edge from both graphs (where present)
+        g, h = case["g"], case["h"]
+        for v in sorted(set(G.all_nodes(g)) | set(G.all_nodes(h))):
+            f = lambda x: {"nodes": [y for y in x["nodes"] if y != v], "di": [e for e in x["di"] if v not in e],  # noqa: E731
+                           "bi": [e for e in x["bi"] if v not in e]}
+            yield dict(case, g=f(g), h=f(h))
+        for key in ("di", "bi"):
+            for e in g[key]:
+                same = (lambda a, b: a == b) if key == "di" else (lambda a, b: set(a) == set(b))
+                yield dict(case, g=dict(g, **{key: [x for x in g[key] if not same(x, e)]}),
+                           h=dict(h, **{key: [x for x in h[key] if not same(x, e)]}))
+        return
     for g in G.shrink_graph(case["g"]):
         c = dict(case)
         c["g"] = g
@@ -831,7 +1011,7 @@ def shrink(case):
 
 def finding_key(case, res):
     import json
-    c = {k: case[k] for k in ("op", "g", "S", "T", "order", "v") if k in case}
+    c = {k: case[k] for k in ("op", "g", "h", "S", "T", "order", "v") if k in case}
     return json.dumps(c, sort_keys=True)
 
 
